@@ -1,4 +1,796 @@
-import NriModel.Basic
-/-! Property theorems for C13 — placeholder until the model is written. -/
+import NriModel.Lemmas.GenerateLift
+import NriModel.Lemmas.GenerateSpec
+/-!
+Property C13 — applying a container adjustment to an OCI spec changes exactly what it names,
+deterministically.  Theorems about `Nri.Generate.adjust` (the model of `Generator.Adjust`,
+repaired code).  Throughout:
+
+  `hext : ext.CDIFramed`            the external CDI injector only touches the ghost field `cdi`
+  `h : adjust ext s a = .ok s'`     the adjustment was applied without error
+
+Guards (each an explicit hypothesis where the proof needs it, each with a witness theorem at
+the end of the file showing the conclusion fails without it):
+  * `NodupKeys … s.mounts / s.devices` — original mount destinations / device paths distinct
+    (`RemoveMount`/`RemoveDevice` delete only the first match);
+  * `Env.WF s.env` — original environment entries are `NAME=value` with distinct non-empty names;
+    adjustment keys contain no `'='` and the name looked up is not `""`;
+  * cleaned mount destinations for "parents first".
+"Marked" = key starts with `'-'` (removal marker).
+-/
 namespace Nri.Props.C13
+open Nri Nri.Api Nri.Generate
+open Nri.Oci (Spec)
+
+variable {ext : Externals} {s s' : Spec} {a : Adjustment}
+
+/-! ## Annotations (a Go map: entries reach the generator in an arbitrary order) -/
+
+/-- Determinism: any iteration order `π` of the annotation map gives the same annotations. -/
+theorem C13_annotations_perm (ann : AList Str Str) (E π : List (Str × Str)) (hp : π.Perm E)
+    (hn : AList.WF E) (k : Str) :
+    AList.lookup (Annotations.apply ann π) k = AList.lookup (Annotations.apply ann E) k :=
+  Annotations.lookup_apply_perm ann hp hn k
+
+example : (([(str "-k", []), (str "k", str "new")] : List (Str × Str)).Perm
+    [(str "k", str "new"), (str "-k", [])]) := List.Perm.swap _ _ _
+
+/-- Set wins: an unmarked entry `(k, v)` ends up as the value of `k`, also when `-k` is in the
+    same adjustment, whatever the iteration order. -/
+theorem C13_annotations_set_wins (hext : ext.CDIFramed) (h : adjust ext s a = .ok s')
+    (hn : AList.WF a.annotations) {k v : Str} (hk : (k, v) ∈ a.annotations)
+    (hm : isMarked k = false) : AList.lookup s'.annotations k = some v := by
+  rw [(adjust_ok hext h).annotations, Annotations.lookup_apply]
+  obtain ⟨pre, post, hsplit⟩ := List.append_of_mem hk
+  have hq : Annotations.setsKey k (k, v) = true := by simp [Annotations.setsKey, hm]
+  have hpost : ∀ x ∈ post, Annotations.setsKey k x = false := by
+    intro x hx
+    cases hxq : Annotations.setsKey k x with
+    | false => rfl
+    | true =>
+      exfalso
+      simp only [Annotations.setsKey, Bool.and_eq_true, beq_iff_eq] at hxq
+      unfold AList.WF AList.keys at hn
+      rw [hsplit] at hn
+      simp only [List.map_append, List.map_cons] at hn
+      have := (List.nodup_append.mp hn).2.1
+      rw [List.nodup_cons] at this
+      exact this.1 (List.mem_map.mpr ⟨x, hx, hxq.2⟩)
+  rw [hsplit, lastMatch_split hq hpost, pick_some]
+
+example : AList.lookup (Annotations.apply [(str "k", str "old")] [(str "k", str "new"), (str "-k", [])]) (str "k")
+    = some (str "new") := by decide
+
+/-- Removed: `-k` without a set of `k` leaves no annotation `k`. -/
+theorem C13_annotations_removed (hext : ext.CDIFramed) (h : adjust ext s a = .ok s')
+    {k v : Str} (hk : (markForRemoval k, v) ∈ a.annotations)
+    (hno : ∀ e ∈ a.annotations, e.1 = k → isMarked k = true) :
+    AList.lookup s'.annotations k = none := by
+  rw [(adjust_ok hext h).annotations, Annotations.lookup_apply]
+  have h1 : lastMatch (Annotations.setsKey k) a.annotations = none := by
+    rw [lastMatch_none_iff]; intro e he
+    cases hq : Annotations.setsKey k e with
+    | false => rfl
+    | true =>
+      simp only [Annotations.setsKey, Bool.and_eq_true, Bool.not_eq_true', beq_iff_eq] at hq
+      have := hno e he hq.2
+      rw [← hq.2, hq.1] at this; cases this
+  have h2 : a.annotations.any (Annotations.removes k) = true :=
+    List.any_eq_true.mpr ⟨_, hk, by simp [Annotations.removes]⟩
+  rw [h1, pick_none, h2]; rfl
+
+/-- Frame: a key the adjustment does not name (neither `k` nor `-k`) keeps its value. -/
+theorem C13_annotations_frame (hext : ext.CDIFramed) (h : adjust ext s a = .ok s') {k : Str}
+    (hno : ∀ e ∈ a.annotations, stripMarker e.1 ≠ k) :
+    AList.lookup s'.annotations k = AList.lookup s.annotations k := by
+  rw [(adjust_ok hext h).annotations, Annotations.lookup_apply]
+  have h1 : lastMatch (Annotations.setsKey k) a.annotations = none := by
+    rw [lastMatch_none_iff]; intro e he
+    cases hm : isMarked e.1
+    · have := hno e he; rw [strip_of_not_marked hm] at this
+      simp [Annotations.setsKey, hm, this]
+    · simp [Annotations.setsKey, hm]
+  have h2 : a.annotations.any (Annotations.removes k) = false := by
+    rw [Bool.eq_false_iff]; intro hany
+    obtain ⟨e, he, hq⟩ := List.any_eq_true.mp hany
+    simp only [Annotations.removes, Bool.and_eq_true, beq_iff_eq] at hq
+    exact hno e he hq.2
+  rw [h1, pick_none, h2]; rfl
+
+/-! ## Environment -/
+
+/-- Set wins, env: the last unmarked entry `NAME=value` for a name is what `NAME` holds
+    afterwards — wherever `-NAME` stands in the list, before or after it. -/
+theorem C13_env_set_wins (hext : ext.CDIFramed) (h : adjust ext s a = .ok s')
+    (hwf : Env.WF s.env) (hkeys : ∀ x ∈ a.env, '=' ∉ stripMarker x.key)
+    {e : KeyValue} (he : LastSet KeyValue.key a.env e) (hk : e.key ≠ []) :
+    Env.lookup s'.env e.key = some e.value := by
+  have hne : a.env ≠ [] := by
+    obtain ⟨_, pre, post, hL, _⟩ := he; rw [hL]; simp
+  rw [(adjust_ok hext h).env, Env.lookup_apply _ _ hwf hne hkeys _ hk]
+  have := he.lastMatch
+  unfold Env.setsKey
+  rw [this]
+
+example : Env.lookup (Env.apply [str "FOO=old"] [⟨str "FOO", str "new"⟩, ⟨str "-FOO", []⟩]) (str "FOO")
+    = some (str "new") := by decide
+
+/-- Removed, env. -/
+theorem C13_env_removed (hext : ext.CDIFramed) (h : adjust ext s a = .ok s')
+    (hwf : Env.WF s.env) (hkeys : ∀ x ∈ a.env, '=' ∉ stripMarker x.key)
+    {k : Str} (hk : k ≠ []) {e : KeyValue} (he : e ∈ a.env) (hek : e.key = markForRemoval k)
+    (hno : ∀ x ∈ a.env, isMarked x.key = false → x.key ≠ k) :
+    Env.lookup s'.env k = none := by
+  have hne : a.env ≠ [] := by intro h0; rw [h0] at he; cases he
+  rw [(adjust_ok hext h).env, Env.lookup_apply _ _ hwf hne hkeys _ hk]
+  have h1 : lastMatch (Env.setsKey k) a.env = none := by
+    rw [lastMatch_none_iff]; intro x hx
+    cases hm : isMarked x.key
+    · have := hno x hx hm; simp [Env.setsKey, this]
+    · simp [Env.setsKey, hm]
+  have h2 : a.env.any (Env.removes k) = true :=
+    List.any_eq_true.mpr ⟨e, he, by simp [Env.removes, hek]⟩
+  rw [h1, h2]; rfl
+
+/-- Frame, env: a variable the adjustment does not name keeps its value … -/
+theorem C13_env_frame (hext : ext.CDIFramed) (h : adjust ext s a = .ok s')
+    (hwf : Env.WF s.env) (hkeys : ∀ x ∈ a.env, '=' ∉ stripMarker x.key)
+    {k : Str} (hk : k ≠ []) (hno : ∀ x ∈ a.env, stripMarker x.key ≠ k) :
+    Env.lookup s'.env k = Env.lookup s.env k := by
+  rw [(adjust_ok hext h).env]
+  by_cases hne : a.env = []
+  · rw [hne]; simp [Env.apply, Env.applyWith]
+  rw [Env.lookup_apply _ _ hwf hne hkeys _ hk]
+  have h1 : lastMatch (Env.setsKey k) a.env = none := by
+    rw [lastMatch_none_iff]; intro x hx
+    cases hm : isMarked x.key
+    · have := hno x hx; rw [strip_of_not_marked hm] at this
+      simp [Env.setsKey, this]
+    · simp [Env.setsKey, hm]
+  have h2 : a.env.any (Env.removes k) = false := by
+    rw [Bool.eq_false_iff]; intro hany
+    obtain ⟨x, hx, hq⟩ := List.any_eq_true.mp hany
+    simp only [Env.removes, Bool.and_eq_true, beq_iff_eq] at hq
+    exact hno x hx hq.2
+  rw [h1, h2]; rfl
+
+/-- … and the entries of all unnamed variables come out unchanged, in their original order. -/
+theorem C13_env_frame_order (hext : ext.CDIFramed) (h : adjust ext s a = .ok s')
+    (hwf : Env.WF s.env) (hkeys : ∀ x ∈ a.env, '=' ∉ stripMarker x.key) :
+    s'.env.filter (fun e => !(a.env.map (fun x => stripMarker x.key)).contains (Env.nameOf e)) =
+    s.env.filter (fun e => !(a.env.map (fun x => stripMarker x.key)).contains (Env.nameOf e)) := by
+  rw [(adjust_ok hext h).env]
+  apply Env.filter_apply s.env a.env hwf hkeys
+    (fun n => !(a.env.map (fun x => stripMarker x.key)).contains n)
+  intro x hx
+  simp only [Bool.not_eq_false', List.contains_eq_mem, List.mem_map, decide_eq_true_eq]
+  exact ⟨x, hx, rfl⟩
+
+/-! ## Devices -/
+
+/-- Set wins, devices. -/
+theorem C13_devices_set_wins (hext : ext.CDIFramed) (h : adjust ext s a = .ok s')
+    (hn : NodupKeys Oci.Device.path s.devices) {d : LinuxDevice}
+    (hd : LastSet LinuxDevice.path a.linuxDevices d) :
+    find Oci.Device.path d.path s'.devices = some d.toOCI := by
+  rw [devices_eq hext h hn, find_twoPass Oci.Device.path LinuxDevice.path LinuxDevice.toOCI (fun _ _ => rfl) a.linuxDevices hn, hd.lastMatch, pick_some]
+
+/-- Removed, devices. -/
+theorem C13_devices_removed (hext : ext.CDIFramed) (h : adjust ext s a = .ok s')
+    (hn : NodupKeys Oci.Device.path s.devices) {k : Str} {d : LinuxDevice}
+    (hd : d ∈ a.linuxDevices) (hdk : d.path = markForRemoval k)
+    (hno : ∀ x ∈ a.linuxDevices, isMarked x.path = false → x.path ≠ k) :
+    find Oci.Device.path k s'.devices = none := by
+  rw [devices_eq hext h hn, find_twoPass Oci.Device.path LinuxDevice.path LinuxDevice.toOCI (fun _ _ => rfl) a.linuxDevices hn]
+  have h1 : lastMatch (fun e : LinuxDevice => !isMarked e.path && e.path == k) a.linuxDevices = none := by
+    rw [lastMatch_none_iff]; intro x hx
+    cases hm : isMarked x.path
+    · have := hno x hx hm; simp [this]
+    · simp
+  have h2 : a.linuxDevices.any (fun e => isMarked e.path && stripMarker e.path == k) = true :=
+    List.any_eq_true.mpr ⟨d, hd, by simp [hdk]⟩
+  rw [h1, pick_none, h2]; rfl
+
+/-- Frame, devices: an unnamed path keeps its device … -/
+theorem C13_devices_frame (hext : ext.CDIFramed) (h : adjust ext s a = .ok s')
+    (hn : NodupKeys Oci.Device.path s.devices) {k : Str}
+    (hno : ∀ x ∈ a.linuxDevices, stripMarker x.path ≠ k) :
+    find Oci.Device.path k s'.devices = find Oci.Device.path k s.devices := by
+  rw [devices_eq hext h hn, find_twoPass Oci.Device.path LinuxDevice.path LinuxDevice.toOCI (fun _ _ => rfl) a.linuxDevices hn]
+  have h1 : lastMatch (fun e : LinuxDevice => !isMarked e.path && e.path == k) a.linuxDevices = none := by
+    rw [lastMatch_none_iff]; intro x hx
+    cases hm : isMarked x.path
+    · have := hno x hx; rw [strip_of_not_marked hm] at this; simp [this]
+    · simp
+  have h2 : a.linuxDevices.any (fun e => isMarked e.path && stripMarker e.path == k) = false := by
+    rw [Bool.eq_false_iff]; intro hany
+    obtain ⟨x, hx, hq⟩ := List.any_eq_true.mp hany
+    simp only [Bool.and_eq_true, beq_iff_eq] at hq
+    exact hno x hx hq.2
+  rw [h1, pick_none, h2]; rfl
+
+/-- … and the unnamed devices keep their relative order. -/
+theorem C13_devices_frame_order (hext : ext.CDIFramed) (h : adjust ext s a = .ok s')
+    (hn : NodupKeys Oci.Device.path s.devices) :
+    s'.devices.filter (fun x => !(a.linuxDevices.map (fun d => stripMarker d.path)).contains x.path) =
+    s.devices.filter (fun x => !(a.linuxDevices.map (fun d => stripMarker d.path)).contains x.path) := by
+  rw [devices_eq hext h hn]
+  have hp : ∀ e ∈ a.linuxDevices,
+      (fun n => !(a.linuxDevices.map (fun d => stripMarker d.path)).contains n) (stripMarker e.path) = false := by
+    intro e he
+    simp only [Bool.not_eq_false', List.contains_eq_mem, List.mem_map, decide_eq_true_eq]
+    exact ⟨e, he, rfl⟩
+  rw [filter_gSets Oci.Device.path LinuxDevice.path LinuxDevice.toOCI (fun _ _ => rfl)
+        (fun n => !(a.linuxDevices.map (fun d => stripMarker d.path)).contains n) a.linuxDevices hp,
+      filter_gRemovals Oci.Device.path LinuxDevice.path
+        (fun n => !(a.linuxDevices.map (fun d => stripMarker d.path)).contains n) a.linuxDevices hp]
+
+/-- The device cgroup: the original rules, then one allow rule per device set, in list order
+    (nothing is ever retracted). -/
+theorem C13_devices_cgroup_rules (hext : ext.CDIFramed) (h : adjust ext s a = .ok s') :
+    s'.devRules = s.devRules ++
+      (a.linuxDevices.filter (fun d => !isMarked d.path)).map LinuxDevice.cgroupRule := by
+  have := congrArg Prod.snd (adjust_ok hext h).devices
+  simp only at this
+  rw [this, Devices.apply_snd]
+
+/-! ## Mounts -/
+
+/-- With no mount in the adjustment the mount list is left exactly as it was. -/
+theorem C13_mounts_untouched (hext : ext.CDIFramed) (h : adjust ext s a = .ok s')
+    (he : a.mounts = []) : s'.mounts = s.mounts ∧ s'.rootfsPropagation = s.rootfsPropagation := by
+  have hm := (adjust_ok hext h).mounts
+  unfold Mounts.apply at hm
+  rw [he] at hm
+  simp only [List.isEmpty_nil, if_true] at hm
+  have := Except.ok.inj hm
+  exact ⟨(congrArg Prod.fst this).symm, (congrArg Prod.snd this).symm⟩
+
+/-- Set wins, mounts. -/
+theorem C13_mounts_set_wins (hext : ext.CDIFramed) (h : adjust ext s a = .ok s')
+    (hn : NodupKeys Oci.Mount.destination s.mounts) {m : Api.Mount}
+    (hm : LastSet Api.Mount.destination a.mounts m) :
+    find Oci.Mount.destination m.destination s'.mounts = some m.toOCI := by
+  have hne : a.mounts ≠ [] := by
+    obtain ⟨_, pre, post, hL, _⟩ := hm; rw [hL]; simp
+  rw [mounts_eq hext h hne, Mounts.find_sortMounts, find_twoPass Oci.Mount.destination Api.Mount.destination Api.Mount.toOCI (fun _ _ => rfl) a.mounts hn,
+    hm.lastMatch, pick_some]
+  exact nodup_gSets Oci.Mount.destination Api.Mount.destination Api.Mount.toOCI (fun _ _ => rfl) a.mounts (nodup_gRemovals Oci.Mount.destination Api.Mount.destination a.mounts hn)
+
+/-- Removed, mounts. -/
+theorem C13_mounts_removed (hext : ext.CDIFramed) (h : adjust ext s a = .ok s')
+    (hn : NodupKeys Oci.Mount.destination s.mounts) {k : Str} {m : Api.Mount}
+    (hm : m ∈ a.mounts) (hmk : m.destination = markForRemoval k)
+    (hno : ∀ x ∈ a.mounts, isMarked x.destination = false → x.destination ≠ k) :
+    find Oci.Mount.destination k s'.mounts = none := by
+  have hne : a.mounts ≠ [] := by intro h0; rw [h0] at hm; cases hm
+  rw [mounts_eq hext h hne, Mounts.find_sortMounts, find_twoPass Oci.Mount.destination Api.Mount.destination Api.Mount.toOCI (fun _ _ => rfl) a.mounts hn]
+  · have h1 : lastMatch (fun e : Api.Mount => !isMarked e.destination && e.destination == k) a.mounts = none := by
+      rw [lastMatch_none_iff]; intro x hx
+      cases hmx : isMarked x.destination
+      · have := hno x hx hmx; simp [this]
+      · simp
+    have h2 : a.mounts.any (fun e => isMarked e.destination && stripMarker e.destination == k) = true :=
+      List.any_eq_true.mpr ⟨m, hm, by simp [hmk]⟩
+    rw [h1, pick_none, h2]; rfl
+  · exact nodup_gSets Oci.Mount.destination Api.Mount.destination Api.Mount.toOCI (fun _ _ => rfl) a.mounts (nodup_gRemovals Oci.Mount.destination Api.Mount.destination a.mounts hn)
+
+/-- Frame, mounts: an unnamed destination keeps its mount … -/
+theorem C13_mounts_frame (hext : ext.CDIFramed) (h : adjust ext s a = .ok s')
+    (hn : NodupKeys Oci.Mount.destination s.mounts) {k : Str}
+    (hno : ∀ x ∈ a.mounts, stripMarker x.destination ≠ k) :
+    find Oci.Mount.destination k s'.mounts = find Oci.Mount.destination k s.mounts := by
+  by_cases hne : a.mounts = []
+  · rw [(C13_mounts_untouched hext h hne).1]
+  rw [mounts_eq hext h hne, Mounts.find_sortMounts, find_twoPass Oci.Mount.destination Api.Mount.destination Api.Mount.toOCI (fun _ _ => rfl) a.mounts hn]
+  · have h1 : lastMatch (fun e : Api.Mount => !isMarked e.destination && e.destination == k) a.mounts = none := by
+      rw [lastMatch_none_iff]; intro x hx
+      cases hm : isMarked x.destination
+      · have := hno x hx; rw [strip_of_not_marked hm] at this; simp [this]
+      · simp
+    have h2 : a.mounts.any (fun e => isMarked e.destination && stripMarker e.destination == k) = false := by
+      rw [Bool.eq_false_iff]; intro hany
+      obtain ⟨x, hx, hq⟩ := List.any_eq_true.mp hany
+      simp only [Bool.and_eq_true, beq_iff_eq] at hq
+      exact hno x hx hq.2
+    rw [h1, pick_none, h2]; rfl
+  · exact nodup_gSets Oci.Mount.destination Api.Mount.destination Api.Mount.toOCI (fun _ _ => rfl) a.mounts (nodup_gRemovals Oci.Mount.destination Api.Mount.destination a.mounts hn)
+
+/-- … and the unnamed mounts are all still there, none duplicated (as a multiset; their order
+    is the sort order). -/
+theorem C13_mounts_frame_perm (hext : ext.CDIFramed) (h : adjust ext s a = .ok s') :
+    (s'.mounts.filter (fun x => !(a.mounts.map (fun m => stripMarker m.destination)).contains x.destination)).Perm
+    (s.mounts.filter (fun x => !(a.mounts.map (fun m => stripMarker m.destination)).contains x.destination)) := by
+  by_cases hne : a.mounts = []
+  · rw [(C13_mounts_untouched hext h hne).1]
+  rw [mounts_eq hext h hne]
+  have hp : ∀ e ∈ a.mounts,
+      (fun n => !(a.mounts.map (fun m => stripMarker m.destination)).contains n) (stripMarker e.destination) = false := by
+    intro e he
+    simp only [Bool.not_eq_false', List.contains_eq_mem, List.mem_map, decide_eq_true_eq]
+    exact ⟨e, he, rfl⟩
+  refine ((Mounts.sortMounts_perm _).filter _).trans ?_
+  rw [filter_gSets Oci.Mount.destination Api.Mount.destination Api.Mount.toOCI (fun _ _ => rfl)
+        (fun n => !(a.mounts.map (fun m => stripMarker m.destination)).contains n) a.mounts hp,
+      filter_gRemovals Oci.Mount.destination Api.Mount.destination
+        (fun n => !(a.mounts.map (fun m => stripMarker m.destination)).contains n) a.mounts hp]
+
+/-- After a mount adjustment the mount list is sorted by `orderedMounts.Less`
+    (number of path separators of the cleaned destination, then the destination string). -/
+theorem C13_mounts_sorted (hext : ext.CDIFramed) (h : adjust ext s a = .ok s')
+    (hne : a.mounts ≠ []) : Mounts.Sorted s'.mounts := by
+  rw [mounts_eq hext h hne]; exact Mounts.sortMounts_sorted _
+
+/-- Parents first: under cleaned destinations, after a mount adjustment every mount stands
+    after every mount of one of its ancestor directories. -/
+theorem C13_parent_first (hext : ext.CDIFramed) (h : adjust ext s a = .ok s')
+    (hne : a.mounts ≠ [])
+    (hclean : ∀ m ∈ s'.mounts, Mounts.cleanPath m.destination = m.destination)
+    {i j : Nat} {p c : Oci.Mount} (hi : s'.mounts[i]? = some p) (hj : s'.mounts[j]? = some c)
+    (hanc : Mounts.IsAncestor p.destination c.destination) : i < j := by
+  have hs := C13_mounts_sorted hext h hne
+  have hp : p ∈ s'.mounts := List.mem_of_getElem? hi
+  have hc : c ∈ s'.mounts := List.mem_of_getElem? hj
+  exact Mounts.sorted_index_lt hs hi hj (Mounts.mountLt_of_ancestor (hclean p hp) (hclean c hc) hanc)
+
+/-- The cleaned-path hypothesis of `C13_parent_first` follows from cleaned INPUTS. -/
+theorem C13_clean_paths_preserved (hext : ext.CDIFramed) (h : adjust ext s a = .ok s') (hne : a.mounts ≠ [])
+    (h1 : ∀ m ∈ s.mounts, Mounts.cleanPath m.destination = m.destination)
+    (h2 : ∀ m ∈ a.mounts, isMarked m.destination = false → Mounts.cleanPath m.destination = m.destination) :
+    ∀ m ∈ s'.mounts, Mounts.cleanPath m.destination = m.destination := by
+  intro m hm
+  rw [mounts_eq hext h hne] at hm
+  have hm := (Mounts.sortMounts_perm _).mem_iff.mp hm
+  rcases mem_gSets _ _ _ _ hm with hm | ⟨e, he, hem, hx⟩
+  · exact h1 m (mem_gRemovals _ _ _ hm)
+  · rw [hx]; exact h2 e he hem
+
+example : Mounts.IsAncestor (str "/a") (str "/a/b") := ⟨str "b", by decide, Or.inl rfl⟩
+example : Mounts.cleanPath (str "/a/b") = str "/a/b" := by decide
+
+/-! ## Requested values appear -/
+
+/-- args: a non-empty command line replaces the old one; a leading `""` (the `UpdateArgs`
+    marker) is not part of it. -/
+theorem C13_args (hext : ext.CDIFramed) (h : adjust ext s a = .ok s') :
+    (∀ x r, a.args = x :: r → x ≠ [] → s'.args = a.args) ∧
+    (∀ x r, a.args = [] :: x :: r → s'.args = x :: r) ∧
+    (a.args = [] → s'.args = s.args) := by
+  rw [(adjust_ok hext h).args]
+  refine ⟨?_, ?_, ?_⟩
+  · intro x r e hx; rw [e]
+    cases x with
+    | nil => exact absurd rfl hx
+    | cons c t => simp [Args.apply]
+  · intro x r e; rw [e]; simp [Args.apply]
+  · intro e; rw [e]; simp [Args.apply]
+
+/-- hooks: each requested hook is appended, converted, to the list of its own kind. -/
+theorem C13_hooks (hext : ext.CDIFramed) (h : adjust ext s a = .ok s') (hk : Api.Hooks)
+    (ha : a.hooks = some hk) :
+    s'.hooks.prestart = s.hooks.prestart ++ hk.prestart.map Hook.toOCI ∧
+    s'.hooks.poststart = s.hooks.poststart ++ hk.poststart.map Hook.toOCI ∧
+    s'.hooks.poststop = s.hooks.poststop ++ hk.poststop.map Hook.toOCI ∧
+    s'.hooks.createRuntime = s.hooks.createRuntime ++ hk.createRuntime.map Hook.toOCI ∧
+    s'.hooks.createContainer = s.hooks.createContainer ++ hk.createContainer.map Hook.toOCI ∧
+    s'.hooks.startContainer = s.hooks.startContainer ++ hk.startContainer.map Hook.toOCI := by
+  have := (adjust_ok hext h).hooks
+  rw [ha] at this
+  simp only at this
+  rw [this]
+  exact ⟨rfl, rfl, rfl, rfl, rfl, rfl⟩
+
+/-- rlimits: appended in order. -/
+theorem C13_rlimits (hext : ext.CDIFramed) (h : adjust ext s a = .ok s') :
+    s'.rlimits = s.rlimits ++ a.rlimits.map POSIXRlimit.toOCI := (adjust_ok hext h).rlimits
+
+/-- CDI: with an injector configured and names requested, the injector is called once, with
+    exactly the requested names in order, on the spec as adjusted so far; `cdi` is its result. -/
+theorem C13_cdi (hext : ext.CDIFramed) (h : adjust ext s a = .ok s')
+    (inj : Spec → List Str → Except Unit Spec) (hi : ext.injectCDI = some inj) (hn : a.cdiDevices ≠ []) :
+    ∃ s1, inj (adjustHooks (adjustArgs (adjustEnv (adjustAnnotations s a.annotations) a.env) a.args) a.hooks)
+            a.cdiDevices = .ok s1 ∧ s'.cdi = s1.cdi := by
+  obtain ⟨s1, h1, h2⟩ := (adjust_ok hext h).cdi
+  refine ⟨s1, ?_, h2⟩
+  unfold injectCDI at h1
+  rw [hi] at h1
+  have : a.cdiDevices.isEmpty = false := by cases hl : a.cdiDevices <;> simp_all
+  simp only [this, Bool.false_eq_true, if_false] at h1
+  split at h1
+  · rename_i s2 hs2; cases h1; exact hs2
+  · cases h1
+
+/-- … for the recording injector: the names are appended to `cdi`. -/
+theorem C13_cdi_recorded {bad : List Str} (hi : ext.injectCDI = some (recordingInjector bad))
+    (h : adjust ext s a = .ok s') (hn : a.cdiDevices ≠ []) : s'.cdi = s.cdi ++ a.cdiDevices := by
+  have hext : ext.CDIFramed := by
+    intro inj hinj; rw [hi] at hinj; cases hinj; exact recordingInjector_framed bad
+  obtain ⟨s1, h1, h2⟩ := C13_cdi hext h _ hi hn
+  rw [h2]
+  unfold recordingInjector at h1
+  split at h1
+  · cases h1
+  · cases h1; rw [pre_fields]
+
+/-- cgroups path and OOM score adjustment. -/
+theorem C13_cgroups_path (hext : ext.CDIFramed) (h : adjust ext s a = .ok s') :
+    (a.cgroupsPath ≠ [] → s'.cgroupsPath = a.cgroupsPath) ∧
+    (a.cgroupsPath = [] → s'.cgroupsPath = s.cgroupsPath) := by
+  rw [(adjust_ok hext h).cgroupsPath]
+  exact ⟨fun hp => by simp [hp], fun hp => by simp [hp]⟩
+
+theorem C13_oom_score (hext : ext.CDIFramed) (h : adjust ext s a = .ok s') :
+    (∀ v, a.oomScoreAdj = some v → s'.oomScoreAdj = some v) ∧
+    (a.oomScoreAdj = none → s'.oomScoreAdj = s.oomScoreAdj) := by
+  rw [(adjust_ok hext h).oomScoreAdj]
+  exact ⟨fun v hv => by rw [hv], fun hv => by rw [hv]⟩
+
+/-- CPU: every requested field has the requested value, every other field is unchanged. -/
+theorem C13_cpu (hext : ext.CDIFramed) (h : adjust ext s a = .ok s') (r : LinuxResources) (c : LinuxCPU)
+    (hr : a.resources = some r) (hc : r.cpu = some c) :
+    s'.cpu.shares = (match c.shares with | some v => some v | none => s.cpu.shares) ∧
+    s'.cpu.quota = (match c.quota with | some v => some v | none => s.cpu.quota) ∧
+    s'.cpu.period = (match c.period with | some v => some v | none => s.cpu.period) ∧
+    s'.cpu.realtimeRuntime = (match c.realtimeRuntime with | some v => some v | none => s.cpu.realtimeRuntime) ∧
+    s'.cpu.realtimePeriod = (match c.realtimePeriod with | some v => some v | none => s.cpu.realtimePeriod) ∧
+    s'.cpu.cpus = (if c.cpus = [] then s.cpu.cpus else c.cpus) ∧
+    s'.cpu.mems = (if c.mems = [] then s.cpu.mems else c.mems) := by
+  rw [(adjust_ok hext h).cpu]
+  unfold Resources.cpuAfter
+  rw [hr]; simp only [hc]
+  unfold Resources.applyCpu
+  obtain ⟨sh, qu, pe, rr, rp, cpus, mems⟩ := c
+  cases sh <;> cases qu <;> cases pe <;> cases rr <;> cases rp <;>
+    by_cases h1 : cpus = [] <;> by_cases h2 : mems = [] <;> simp [h1, h2]
+
+/-- Memory: a requested non-zero limit becomes the limit and the swap limit; nothing else in
+    the memory section changes (the generator applies no other memory field). -/
+theorem C13_memory_limit (hext : ext.CDIFramed) (h : adjust ext s a = .ok s') (r : LinuxResources)
+    (m : LinuxMemory) (hr : a.resources = some r) (hm : r.memory = some m) (l : Int)
+    (hl : m.limit = some l) (hz : l ≠ 0) :
+    s'.memory = { s.memory with limit := some l, swap := some l } := by
+  rw [(adjust_ok hext h).memory]
+  unfold Resources.memoryAfter
+  rw [hr]; simp only [hm]
+  unfold Resources.applyMemory
+  rw [hl]; simp [hz]
+
+/-- Hugepages: the limit of every page size is the last requested one, else the original. -/
+theorem C13_hugepages (hext : ext.CDIFramed) (h : adjust ext s a = .ok s') (r : LinuxResources)
+    (hr : a.resources = some r) (k : Str) :
+    Resources.hfind k s'.hugepages =
+      pick (lastMatch (fun x : Api.HugepageLimit => x.pageSize == k) r.hugepageLimits) (·.limit)
+        (Resources.hfind k s.hugepages) := by
+  rw [(adjust_ok hext h).hugepages]
+  unfold Resources.hugepagesAfter
+  rw [hr]; exact Resources.hfind_applyHugepages _ _ _
+
+/-- Unified: every requested key has the requested value (map with distinct keys), every other
+    key is unchanged, for any iteration order. -/
+theorem C13_unified (hext : ext.CDIFramed) (h : adjust ext s a = .ok s') (r : LinuxResources)
+    (hr : a.resources = some r) (hn : AList.WF r.unified) :
+    (∀ k v, (k, v) ∈ r.unified → AList.lookup s'.unified k = some v) ∧
+    (∀ k, (∀ e ∈ r.unified, e.1 ≠ k) → AList.lookup s'.unified k = AList.lookup s.unified k) := by
+  rw [(adjust_ok hext h).unified]
+  unfold Resources.unifiedAfter
+  rw [hr]; simp only
+  constructor
+  · intro k v hk
+    rw [Resources.lookup_applyUnified]
+    obtain ⟨pre, post, hsplit⟩ := List.append_of_mem hk
+    have hpost : ∀ x ∈ post, (fun e : Str × Str => e.1 == k) x = false := by
+      intro x hx
+      cases hxq : (x.1 == k) with
+      | false => exact hxq
+      | true =>
+        exfalso
+        simp only [beq_iff_eq] at hxq
+        unfold AList.WF AList.keys at hn
+        rw [hsplit] at hn
+        simp only [List.map_append, List.map_cons] at hn
+        have := (List.nodup_append.mp hn).2.1
+        rw [List.nodup_cons] at this
+        exact this.1 (List.mem_map.mpr ⟨x, hx, hxq⟩)
+    rw [hsplit, lastMatch_split (q := fun e : Str × Str => e.1 == k) (by simp) hpost, pick_some]
+  · intro k hno
+    rw [Resources.lookup_applyUnified]
+    have : lastMatch (fun e : Str × Str => e.1 == k) r.unified = none := by
+      rw [lastMatch_none_iff]; intro e he; simpa using hno e he
+    rw [this, pick_none]
+
+theorem C13_unified_perm (u : AList Str Str) (E π : List (Str × Str)) (hp : π.Perm E)
+    (hn : AList.WF E) (k : Str) :
+    AList.lookup (Resources.applyUnified u π) k = AList.lookup (Resources.applyUnified u E) k :=
+  Resources.lookup_applyUnified_perm u hp hn k
+
+/-- Pids limit. -/
+theorem C13_pids (hext : ext.CDIFramed) (h : adjust ext s a = .ok s') (r : LinuxResources)
+    (hr : a.resources = some r) :
+    s'.pids = (match r.pids with | some v => some v | none => s.pids) := by
+  rw [(adjust_ok hext h).pids]
+  unfold Resources.pidsAfter
+  rw [hr]
+  rfl
+
+/-- Without a resources section nothing in the resources changes. -/
+theorem C13_resources_untouched (hext : ext.CDIFramed) (h : adjust ext s a = .ok s')
+    (hr : a.resources = none) :
+    s'.cpu = s.cpu ∧ s'.memory = s.memory ∧ s'.hugepages = s.hugepages ∧ s'.unified = s.unified ∧
+    s'.pids = s.pids ∧ s'.blockio = s.blockio ∧ s'.rdt = s.rdt := by
+  have ok := adjust_ok hext h
+  have hb := ok.blockio
+  have hrd := ok.rdt
+  unfold Adjustment.blockioClass at hb
+  unfold Adjustment.rdtClass at hrd
+  rw [hr] at hb hrd
+  simp only [Resources.applyBlockIO, Resources.applyRdt] at hb hrd
+  refine ⟨?_, ?_, ?_, ?_, ?_, (Except.ok.inj hb).symm, (Except.ok.inj hrd).symm⟩
+  · rw [ok.cpu, hr]; rfl
+  · rw [ok.memory, hr]; rfl
+  · rw [ok.hugepages, hr]; rfl
+  · rw [ok.unified, hr]; rfl
+  · rw [ok.pids, hr]; rfl
+
+/-! ## Determinism -/
+
+/-- Up to the representation of the two maps, two specs are the same. -/
+def SpecEqv (x y : Spec) : Prop :=
+  (∀ k, AList.lookup x.annotations k = AList.lookup y.annotations k) ∧
+  (∀ k, AList.lookup x.unified k = AList.lookup y.unified k) ∧
+  { x with annotations := [], unified := [] } = { y with annotations := [], unified := [] }
+
+/-- the unified map of an adjustment (empty when there is no resources section) -/
+def unifiedOf (a : Adjustment) : AList Str Str :=
+  match a.resources with | some r => r.unified | none => []
+
+/-- Same inputs, same spec: whatever order the annotation map (`π`) and the unified map (`σ`)
+    are iterated in, `Adjust` succeeds again and the specs are equal (the CDI injector being
+    the recording one, or absent).  Everything else in `Adjust` is a function of lists. -/
+theorem C13_deterministic {bad : List Str}
+    (hi : ext.injectCDI = some (recordingInjector bad) ∨ ext.injectCDI = none)
+    (π σ : List (Str × Str)) (hπ : π.Perm a.annotations) (hσ : σ.Perm (unifiedOf a))
+    (hn1 : AList.WF a.annotations) (hn2 : AList.WF (unifiedOf a))
+    (h : adjust ext s a = .ok s') :
+    ∃ s'', adjust ext s { withUnified a σ with annotations := π } = .ok s'' ∧ SpecEqv s'' s' := by
+  rw [adjust_eq hi] at h ⊢
+  -- the four fallible stages do not read the two maps
+  have e1 : ({ withUnified a σ with annotations := π } : Adjustment).cdiDevices = a.cdiDevices := rfl
+  have e2 : ({ withUnified a σ with annotations := π } : Adjustment).blockioClass = a.blockioClass := by
+    unfold Adjustment.blockioClass Adjustment.resources withUnified
+    cases a.linux with
+    | none => rfl
+    | some l => cases hr : l.resources <;> simp [hr]
+  have e3 : ({ withUnified a σ with annotations := π } : Adjustment).rdtClass = a.rdtClass := by
+    unfold Adjustment.rdtClass Adjustment.resources withUnified
+    cases a.linux with
+    | none => rfl
+    | some l => cases hr : l.resources <;> simp [hr]
+  have e4 : ({ withUnified a σ with annotations := π } : Adjustment).mounts = a.mounts := rfl
+  rw [e1, e2, e3, e4]
+  cases hc : cdiAfter ext.injectCDI.isSome bad s.cdi a.cdiDevices with
+  | error e => rw [hc] at h; cases h
+  | ok c =>
+  rw [hc] at h; simp only at h ⊢
+  cases hb : Resources.applyBlockIO ext.resolveBlockIO s.blockio a.blockioClass with
+  | error e => rw [hb] at h; cases h
+  | ok b =>
+  rw [hb] at h; simp only at h ⊢
+  cases hr : Resources.applyRdt ext.resolveRdt s.rdt a.rdtClass with
+  | error e => rw [hr] at h; cases h
+  | ok r =>
+  rw [hr] at h; simp only at h ⊢
+  cases hm : Mounts.apply ext.hostPropagation s.mounts s.rootfsPropagation a.mounts with
+  | error e => rw [hm] at h; cases h
+  | ok mp =>
+  rw [hm] at h; simp only at h ⊢
+  cases h
+  refine ⟨_, rfl, ?_, ?_, ?_⟩
+  · intro k
+    exact Annotations.lookup_apply_perm s.annotations hπ hn1 k
+  · intro k
+    simp only [assemble]
+    unfold Resources.unifiedAfter Adjustment.resources withUnified
+    cases hl : a.linux with
+    | none => rfl
+    | some l =>
+      cases hres : l.resources with
+      | none => simp [hres]
+      | some rr =>
+        simp only [unifiedOf, Adjustment.resources, hl, hres] at hσ hn2
+        simp only [Option.map_some, hres]
+        exact Resources.lookup_applyUnified_perm s.unified hσ hn2 k
+  · simp only [assemble]
+    unfold Resources.cpuAfter Resources.memoryAfter Resources.hugepagesAfter Resources.pidsAfter
+      Adjustment.linuxDevices Adjustment.cgroupsPath Adjustment.oomScoreAdj Adjustment.resources withUnified
+    cases hl : a.linux with
+    | none => rfl
+    | some l =>
+      cases hres : l.resources with
+      | none => simp [hres]
+      | some rr => simp [hres]
+
+/-! ## The hypotheses are satisfiable, and the driver's guards imply them -/
+
+/-- The Boolean guard the driver evaluates on an original environment implies `Env.WF`. -/
+theorem C13_env_guard_sound (env : List Str) (h : Check.envWF env = true) : Env.WF env := by
+  unfold Check.envWF at h
+  simp only [Bool.and_eq_true, List.all_eq_true, decide_eq_true_eq] at h
+  refine ⟨?_, h.2⟩
+  intro e he
+  have := h.1 e he
+  cases hs : Env.splitEq e with
+  | none => rw [hs] at this; cases this
+  | some p =>
+    obtain ⟨n, v⟩ := p
+    rw [hs] at this
+    exact ⟨n, v, rfl, by simpa using this⟩
+
+/-- the externals of the correspondence harness satisfy the injector assumption -/
+theorem C13_recording_injector_framed (bad : List Str) (ext : Externals)
+    (h : ext.injectCDI = some (recordingInjector bad)) : ext.CDIFramed := by
+  intro inj hinj; rw [h] at hinj; cases hinj; exact recordingInjector_framed bad
+
+/-- A concrete instance meeting every hypothesis used above at once (non-vacuity): a spec with
+    env, a mount, a device and an annotation; an adjustment that removes and re-sets each. -/
+theorem C13_hypotheses_satisfiable :
+    let ext : Externals := { injectCDI := some (recordingInjector []) }
+    let s : Spec := { annotations := [(str "k", str "old")], env := [str "FOO=old"],
+                      mounts := [{ destination := str "/a/b" }, { destination := str "/a" }],
+                      devices := [{ path := str "/dev/a" }] }
+    let a : Adjustment :=
+      { annotations := [(str "-k", []), (str "k", str "new")],
+        env := [⟨str "-FOO", []⟩, ⟨str "FOO", str "new"⟩],
+        mounts := [{ destination := str "-/a" }, { destination := str "/a", source := str "/src" }],
+        linux := some { devices := [{ path := str "-/dev/a" }, { path := str "/dev/a", major := 5 }] },
+        cdiDevices := [str "v/c=d"] }
+    ext.CDIFramed ∧ (∃ s', adjust ext s a = .ok s') ∧ Env.WF s.env ∧ AList.WF a.annotations ∧
+    NodupKeys Oci.Mount.destination s.mounts ∧ NodupKeys Oci.Device.path s.devices ∧
+    (∀ x ∈ a.env, '=' ∉ stripMarker x.key) ∧
+    LastSet KeyValue.key a.env ⟨str "FOO", str "new"⟩ := by
+  intro ext s a
+  refine ⟨C13_recording_injector_framed [] ext rfl, ⟨_, rfl⟩, C13_env_guard_sound _ (by decide),
+    ?_, by decide, by decide, by decide, by decide, ⟨[⟨str "-FOO", []⟩], [], rfl, by simp⟩⟩
+  show (List.map (·.1) [(str "-k", ([] : Str)), (str "k", str "new")]).Nodup
+  decide
+
+/-! ## The predicate the driver evaluates on the implementation's output -/
+
+/-- What an accepting verdict of the keyed-family predicate `Check.keyed` certifies about ANY
+    result `new` (in the check: the real generator's): for every key of the original or named
+    by the adjustment, `new` holds what the adjustment wants (`Check.expected`: the converted
+    last set / nothing / the original item), nothing else appears, no key occurs twice, and for
+    ordered families the untouched items are unchanged in their order — the statements of the
+    `set_wins` / `removed` / `frame` / `frame_order` theorems above. -/
+theorem C13_check_keyed_meaning {ε β : Type} [DecidableEq β] (fam : String) (show_ : Str → String)
+    (rawKey : ε → Str) (conv : ε → β) (key : β → Str) (isMap ordered : Bool) (L : List ε)
+    (old new : List β) :
+    Check.keyed fam show_ rawKey conv key isMap ordered L old new = [] ↔
+      (∀ k, (k ∈ old.map key ∨ k ∈ Check.named rawKey L) →
+        find key k new = Check.expected rawKey conv key L old k) ∧
+      (∀ x ∈ new, key x ∈ old.map key ∨ key x ∈ Check.named rawKey L) ∧
+      NodupKeys key new ∧
+      (ordered = true →
+        new.filter (fun x => !(Check.named rawKey L).contains (key x)) =
+        old.filter (fun x => !(Check.named rawKey L).contains (key x))) :=
+  Check.keyed_nil_iff fam show_ rawKey conv key isMap ordered L old new
+
+/-- No false alarm by construction: the model's device result passes the device predicate
+    (keyed conditions and cgroup rules) whenever the guard holds. -/
+theorem C13_check_accepts_model_devices (hext : ext.CDIFramed) (h : adjust ext s a = .ok s')
+    (hn : NodupKeys Oci.Device.path s.devices) :
+    Check.checkDevices s.devices a.linuxDevices s'.devices s.devRules s'.devRules = [] := by
+  unfold Check.checkDevices
+  rw [devices_eq hext h hn, C13_devices_cgroup_rules hext h,
+    Check.keyed_accepts_twoPass "devices" Check.showS LinuxDevice.path LinuxDevice.toOCI Oci.Device.path
+      false true a.linuxDevices s.devices (fun _ _ => rfl) hn]
+  simp
+
+/-- … and so does the model's mount result: the keyed conditions and sortedness (the Boolean
+    `parentsFirst` test is not covered by this theorem; `C13_parent_first` is its model-side
+    statement). -/
+theorem C13_check_accepts_model_mounts (hext : ext.CDIFramed) (h : adjust ext s a = .ok s')
+    (hn : NodupKeys Oci.Mount.destination s.mounts) (hne : a.mounts ≠ []) :
+    Check.keyed "mounts" Check.showS Api.Mount.destination Api.Mount.toOCI Oci.Mount.destination
+      false false a.mounts s.mounts s'.mounts = [] ∧ Check.sortedMounts s'.mounts = true := by
+  have hnd : NodupKeys Oci.Mount.destination
+      (gSets Oci.Mount.destination Api.Mount.destination Api.Mount.toOCI
+        (gRemovals Oci.Mount.destination Api.Mount.destination s.mounts a.mounts) a.mounts) :=
+    nodup_gSets Oci.Mount.destination Api.Mount.destination Api.Mount.toOCI (fun _ _ => rfl) a.mounts
+      (nodup_gRemovals Oci.Mount.destination Api.Mount.destination a.mounts hn)
+  have hacc := (Check.keyed_nil_iff "mounts" Check.showS Api.Mount.destination Api.Mount.toOCI
+      Oci.Mount.destination false false a.mounts s.mounts _).mp
+    (Check.keyed_accepts_twoPass "mounts" Check.showS Api.Mount.destination Api.Mount.toOCI
+      Oci.Mount.destination false false a.mounts s.mounts (fun _ _ => rfl) hn)
+  constructor
+  · rw [Check.keyed_nil_iff, mounts_eq hext h hne]
+    refine ⟨?_, ?_, Mounts.nodup_sortMounts hnd, by intro hf; cases hf⟩
+    · intro k hk
+      rw [Mounts.find_sortMounts hnd]; exact hacc.1 k hk
+    · intro x hx
+      exact hacc.2.1 x ((Mounts.sortMounts_perm _).mem_iff.mp hx)
+  · have hs := C13_mounts_sorted hext h hne
+    generalize s'.mounts = l at hs
+    unfold Mounts.Sorted at hs
+    induction l with
+    | nil => rfl
+    | cons x r ih =>
+      cases r with
+      | nil => rfl
+      | cons y t =>
+        rw [List.pairwise_cons] at hs
+        simp only [Check.sortedMounts, hs.1 y (by simp), Bool.not_false, Bool.true_and]
+        exact ih hs.2
+
+/-! ## The code before the repairs, and why each guard is there (concrete witnesses) -/
+
+/-- Before /repo 1f50159 (`AdjustAnnotations` in one pass): `{"-k": "", "k": "new"}` on a spec
+    holding `k` loses `k` when the map yields the set first, keeps it otherwise. -/
+theorem unfixed_annotations_order_dependent :
+    AList.lookup (Annotations.applyUnfixed [(str "k", str "old")] [(str "k", str "new"), (str "-k", [])]) (str "k") = none ∧
+    AList.lookup (Annotations.applyUnfixed [(str "k", str "old")] [(str "-k", []), (str "k", str "new")]) (str "k")
+      = some (str "new") := by decide
+
+/-- Before /repo ad4e689: `UpdateArgs(["a","b"])` installs the marker as `argv[0]`. -/
+theorem unfixed_args_marker :
+    Args.applyUnfixed [str "old"] [[], str "a", str "b"] = [[], str "a", str "b"] ∧
+    Args.apply [str "old"] [[], str "a", str "b"] = [str "a", str "b"] := by decide
+
+/-- The code in /repo (before docs/fixes/C13-1.patch): `[FOO=new, -FOO]` on a spec with `FOO`
+    removes `FOO`; the repaired code keeps the set. -/
+theorem unfixed_env_set_then_remove :
+    Env.lookup (Env.applyUnfixed [str "FOO=old"] [⟨str "FOO", str "new"⟩, ⟨str "-FOO", []⟩]) (str "FOO") = none ∧
+    Env.lookup (Env.apply [str "FOO=old"] [⟨str "FOO", str "new"⟩, ⟨str "-FOO", []⟩]) (str "FOO")
+      = some (str "new") := by decide
+
+theorem unfixed_devices_set_then_remove :
+    find Oci.Device.path (str "/dev/a")
+      (Devices.applyUnfixed ([{ path := str "/dev/a" }], []) [{ path := str "/dev/a", major := 7 }, { path := str "-/dev/a" }]).1
+      = none ∧
+    find Oci.Device.path (str "/dev/a")
+      (Devices.apply ([{ path := str "/dev/a" }], []) [{ path := str "/dev/a", major := 7 }, { path := str "-/dev/a" }]).1
+      = some { path := str "/dev/a", major := 7 } := by decide
+
+theorem unfixed_mounts_set_then_remove :
+    (Mounts.applyUnfixed (fun _ => []) [{ destination := str "/a" }] []
+        [{ destination := str "/a", source := str "/new" }, { destination := str "-/a" }]) = .ok ([], []) ∧
+    (Mounts.apply (fun _ => []) [{ destination := str "/a" }] []
+        [{ destination := str "/a", source := str "/new" }, { destination := str "-/a" }])
+      = .ok ([{ destination := str "/a", source := str "/new" }], []) := by
+  constructor <;> rfl
+
+/-- docs/fixes/C13-1.patch is conservative: the repaired env / device / mount loops compute what
+    the code before the repair computes on the same entries with the removals moved to the
+    front (stably) — so nothing changes for an adjustment that already lists removals first. -/
+theorem C13_repair_conservative (s : Spec) (ext : Externals) (E : List KeyValue) (D : List LinuxDevice)
+    (M : List Api.Mount) :
+    adjustEnv s E = adjustEnvUnfixed s (removalsFirst KeyValue.key E) ∧
+    adjustDevices s D = adjustDevicesUnfixed s (removalsFirst LinuxDevice.path D) ∧
+    adjustMounts ext s M = adjustMountsUnfixed ext s (removalsFirst Api.Mount.destination M) := by
+  refine ⟨?_, ?_, ?_⟩
+  · unfold adjustEnv adjustEnvUnfixed; rw [Env.apply_eq_unfixed]
+  · unfold adjustDevices adjustDevicesUnfixed; rw [Devices.apply_eq_unfixed]
+  · unfold adjustMounts adjustMountsUnfixed; rw [Mounts.apply_eq_unfixed]
+
+example : removalsFirst KeyValue.key [⟨str "-FOO", []⟩, ⟨str "FOO", str "v"⟩] =
+    [⟨str "-FOO", []⟩, ⟨str "FOO", str "v"⟩] := by decide
+
+/-- Finding (DESIGN §6 #10a): a requested memory limit of 0 is not applied — for every spec. -/
+theorem memory_limit_zero_ignored (m : Oci.Memory) (r : LinuxMemory) (h : r.limit = some 0) :
+    Resources.applyMemory m r = m := by
+  unfold Resources.applyMemory; rw [h]; rfl
+
+/-- Guard `Env.WF`: an original entry without `'='` is dropped as soon as env is adjusted. -/
+theorem guard_env_noeq_dropped :
+    Env.apply [str "NOEQ", str "A=1"] [⟨str "B", str "2"⟩] = [str "A=1", str "B=2"] := by decide
+
+/-- Guard `NodupKeys`: with two devices on one path a removal deletes only the first. -/
+theorem guard_duplicate_path :
+    (Devices.apply ([{ path := str "/dev/a", major := 1 }, { path := str "/dev/a", major := 2 }], [])
+      [{ path := str "-/dev/a" }]).1 = [{ path := str "/dev/a", major := 2 }] := by decide
+
+/-- Guard cleaned paths: `"//"` denotes the root but is sorted after `"/%"`. -/
+theorem guard_unclean_child_first :
+    Mounts.cleanPath (str "//") = str "/" ∧
+    Mounts.sortMounts [{ destination := str "//" }, { destination := str "/%" }] =
+      [{ destination := str "/%" }, { destination := str "//" }] := by decide
+
 end Nri.Props.C13
